@@ -9,7 +9,9 @@ LATTICE = {
     'ibgp': [0, 1],
     'local_asn': [100],
     'bgp_id': [1, 2, 0x01000002, 0x02000001],          # multi-octet identifiers: the octets order as a big-endian number
-    'peer': [(4, 1), (4, 2), (6, 1), (4, 0x01000002), (4, 0x02000001)],
+    # ::ffff:0.0.0.1 / ::ffff:0.0.0.2 are the IPv4-mapped forms of the first two: distinct addresses (every IPv4 address orders
+    # before every IPv6 address) that canonicalising code would merge
+    'peer': [(4, 1), (4, 2), (6, 1), (4, 0x01000002), (4, 0x02000001), (6, 0xffff00000001), (6, 0xffff00000002)],
     'origin': [None, 0, 1, 2, 3, 255],        # 3.. are unassigned ORIGIN codes (OriginType::Unimplemented): ordered after INCOMPLETE, by number
     'path': [None, (), ('a10',), ('a10', 'a20'), ('a30', 'a20'), ('s',), ('a10', 's'), ('o', 'a10'), ('a10', 'o'),
              ('a100', 'a20'), ('a10', 'c'), ('c', 'a10', 'a20'), ('a10', 's', 'c', 'o')],
